@@ -132,6 +132,40 @@ SEQ_RELEVANT = {
 }
 
 
+def tests_facet(pid):
+    """The repository's own test suite, run with the verification hook compiled in (--cfg tcss_verif): every
+    protocol operation a test performs is recorded as a self-contained step and judged by TLC (spec/TraceStep.tla)."""
+    tdir = workdir("hooktrace-" + pid)
+    env = {"RUSTFLAGS": "--cfg tcss_verif --check-cfg cfg(tcss_verif)", "CARGO_TARGET_DIR": os.path.join(BUILD, "hook-target"),
+           "TCSS_TRACE_DIR": tdir, "CARGO_NET_OFFLINE": "true"}
+    p = sh(["cargo", "test", "--workspace", "--offline", "--no-fail-fast"], cwd=REPO, env=env, timeout=2400)
+    passed = sum(int(m) for m in re.findall(r"test result: \w+\. (\d+) passed", p.stdout))
+    failed = sum(int(m) for m in re.findall(r"test result: \w+\. \d+ passed; (\d+) failed", p.stdout))
+    if passed == 0 and p.returncode != 0:
+        raise ToolError("the repository's test suite does not build with the hook on:\n" + p.stderr[-3000:])
+    allf = os.path.join(tdir, "all.ndjson")
+    n = 0
+    with open(allf, "w") as w:
+        for f in sorted(glob.glob(os.path.join(tdir, "trace-*.ndjson"))):
+            for line in open(f):
+                w.write(line)
+                n += 1
+    found = []
+    total = 0
+    if n:
+        viols, total = judge([allf], spec="TraceStep.tla")
+        for v in viols:
+            if pid not in v["names"] or len(found) >= 10:
+                continue
+            e = load_event(allf, v["line"])
+            found.append(dict(sig=dict(engine="tests", test=e.get("test"), op=e["req"]["op"], resp=e["resp"]["kind"]),
+                              what=f"{pid} false on a step recorded from the repository's own test {e.get('test')}: {json.dumps(e['req'])} -> {json.dumps(e['resp'])} "
+                                   f"pre={json.dumps(e['pre'])[:300]} post={json.dumps(e['post'])[:300]}",
+                              replay=dict(engine="tests", predicate=pid, event=e)))
+    shutil.rmtree(tdir, ignore_errors=True)
+    return found, dict(repo_tests_passed=passed, repo_tests_failed=failed, steps_recorded=n, steps_judged=total)
+
+
 CONC_FOCUS = {
     "C01": {("AddVersion", "AddVersion")},
     "C02": {("AddVersion", "AddVersion")},
@@ -261,6 +295,10 @@ def engine_seq(pid, tier, evidence=True):
     if not evidence:
         shutil.rmtree(wd, ignore_errors=True)
         return dict(found=found, notes=notes, coverage={k: coverage[k] for k in ("states", "transitions", "tours", "histories", "events_judged", "events_relevant_to_property")})
+    # the repository's own tests as traces (hook build)
+    tf, tcov = tests_facet(pid)
+    found += tf
+    coverage["repo_test_suite_facet"] = tcov
     # schedule facet: the same property on overlapping requests under the controlled scheduler
     if pid in CONC_FOCUS:
         cr = engine_conc(pid, tier, evidence=False, focus=CONC_FOCUS[pid])
@@ -1616,6 +1654,9 @@ ENGINES["C13"] = engine_lock
 
 def cmd_setup():
     build_harness()
+    # warm the hook build of the repository's test suite (used by the SEQ checks)
+    sh(["cargo", "test", "--workspace", "--offline", "--no-run"], cwd=REPO, timeout=2400,
+       env={"RUSTFLAGS": "--cfg tcss_verif --check-cfg cfg(tcss_verif)", "CARGO_TARGET_DIR": os.path.join(BUILD, "hook-target"), "CARGO_NET_OFFLINE": "true"})
     bad = []
     for f in sorted(glob.glob(os.path.join(SPEC, "*.tla"))):
         p = sh(["java", "-cp", TLA_CP, "tla2sany.SANY", f], cwd=SPEC, timeout=300)
